@@ -436,6 +436,11 @@ def multi_output_guard(idx: ProgramIndex, rep: Report):
             ok_all = False
         if "not isinstance(row_index, slice) or not isinstance(col_index, slice)" not in false_tests:
             ok_all = False
+    # defaulting of slice bounds must not conflate 0 with None (a zero stop is an empty slice)
+    for n in ast.walk(fi.node):
+        if isinstance(n, ast.BoolOp) and isinstance(n.op, ast.Or) and len(n.values) == 2 and isinstance(n.values[0], ast.Attribute) and n.values[0].attr == "stop":
+            rep.add("C06-5", "%s:LazyEvaluatedKernelTensor._getitem[%s]" % (L.module.name, norm(n)), "%s:%d" % (fi.module.relpath, n.lineno), False,
+                    "`%s` treats a slice stop of 0 like None: for a multi-output kernel K[..., 0:0, :] returns all rows instead of none" % norm(n), {})
     rep.add("C06-5", inst, fi.where, ok_all and npaths > 0,
             "on all %d paths the four divisibility tests, the step test and the slice-type test are false before the slices are divided" % npaths if ok_all and npaths else
             "a path divides the row/column slices by num_outputs_per_input without the divisibility, step and slice-type guards having been tested", {"paths": npaths, "divisions": sorted(need_mod)})
